@@ -196,6 +196,12 @@ func exec(kind byte, body []byte) *core.Verdict {
 			return fail("bare-name-differs", "the bare name %s denotes %s, specification %s", n, got, c.Bare[n])
 		}
 	}
+	// the texts alone, before anybody imports a revision by its date: every revision is linked and processed
+	if pre := ms.Process(); len(pre) > 0 {
+		if r := fail("valid-set-reports-errors", "every load was accepted (each text imports the loaded module h and uses its grouping), Process reports %v", pre); !r.OK || r.Out {
+			return r
+		}
+	}
 	// imports of a with and without revision-date
 	for r, want := range c.Imports {
 		rd := ""
